@@ -1,7 +1,7 @@
 ------------------------------ MODULE GroupByMC ------------------------------
 (* Case enumeration for C38 (spec -> code) and design check of the reference.
 
-   The initial states are one SEED per frame fill (chosen by the harness,
+   The initial states are SEEDS, one per frame fill (chosen by the harness,
    seeded: rows with unique idx, 1-2 key columns over {0, 1, NA} - or one
    categorical key with an unused category -, 1-2 value columns over
    {0, 1, 2, NA}) plus one per row count for the partitionings; the successors
@@ -20,7 +20,8 @@
 EXTENDS GroupBy
 
 CONSTANTS Fills,       \* set of [rows, keys, vcols, cats]
-          MaxParts,
+          MaxParts,    \* partitionings with 1..MaxParts parts (exported to the harness)
+          DesignParts, \* the decomposition invariants quantify over the partitionings with <= DesignParts parts
           MinCounts,   \* min_count values for sum / prod
           Ddofs        \* ddof values for var / std
 
@@ -72,15 +73,16 @@ XfCasesOf(f, dropna, observed) ==
                     <<"ffill", 0>>, <<"bfill", 0>>, <<"tsum", 0>> } }
 
 Dropnas == { <<TRUE, TRUE>>, <<TRUE, FALSE>>, <<FALSE, TRUE>> }
-CasesOf(f) ==
-  UNION { AggCasesOf(f, d, s, o) : d \in Dropnas, s \in {0, 1, 2}, o \in (IF f.cats = <<>> THEN {TRUE} ELSE BOOLEAN) }
-  \cup UNION { XfCasesOf(f, d, o) : d \in Dropnas, o \in (IF f.cats = <<>> THEN {TRUE} ELSE BOOLEAN) }
+Observeds(f) == IF f.cats = <<>> THEN {TRUE} ELSE BOOLEAN
+\* the cases of one fill under one (dropna, observed) choice
+CasesOf(f, d, o) == UNION { AggCasesOf(f, d, s, o) : s \in {0, 1, 2} } \cup XfCasesOf(f, d, o)
 
 RowCounts   == { Len(f.rows) : f \in Fills }
 LayoutCases == { [fam |-> "layouts", n |-> n] : n \in RowCounts }
 LayTable    == [n \in RowCounts |-> Layouts(n, MaxParts)]
 
-Seeds == { [fam |-> "seed", f |-> f] : f \in Fills } \cup LayoutCases
+\* (one seed per fill and (dropna, observed) choice: TLC's workers share the seeds)
+Seeds == UNION { { [fam |-> "seed", f |-> f, d |-> d, o |-> o] : d \in Dropnas, o \in Observeds(f) } : f \in Fills } \cup LayoutCases
 Init == /\ case \in Seeds
         /\ done = FALSE
         /\ exp = GFailure
@@ -91,7 +93,7 @@ Next == /\ ~done
            THEN /\ case' = case
                 /\ exp' = GFailure
                 /\ out' = ToJson([c |-> case, e |-> SetToSeq(LayTable[case.n])])
-           ELSE \E c \in CasesOf(case.f) :
+           ELSE \E c \in CasesOf(case.f, case.d, case.o) :
                 /\ case' = c
                 /\ exp' = GExpected(c)
                 /\ out' = ToJson([c |-> c, e |-> exp'])
@@ -99,7 +101,8 @@ Next == /\ ~done
 -----------------------------------------------------------------------------
 (* Design check.                                                              *)
 Judged(fam) == done /\ case.fam = fam
-Lay == LayTable[Len(case.rows)]
+DesignTable == [n \in RowCounts |-> { lay \in LayTable[n] : Len(lay) <= DesignParts }]
+Lay == DesignTable[Len(case.rows)]
 Cats == SeqSet(case.cats)
 
 \* groups partition the grouped rows; sorted keys increase strictly; first-seen order lists the same keys
